@@ -102,8 +102,17 @@ fn leaf_arrival(rng: &mut Rng, period: u64, kind: usize) -> ArrDesc {
         }
         2 => ArrDesc::Curve(random_dmin(rng, period)),
         3 => ArrDesc::Extrap(random_dmin(rng, period)),
-        _ => unreachable!(),
+        _ => {
+            let jitter = if rng.chance(1, 2) { 0 } else { rng.range(0, period) };
+            let horizon = period * rng.range(1, 4) + rng.below(period);
+            prefix_from_sporadic(period, jitter, horizon.max(1))
+        }
     }
+}
+
+/// leaf kind for compositions (jittered clones, superpositions, Rc): all five leaf models
+fn any_leaf(rng: &mut Rng) -> usize {
+    rng.weighted(&[3, 6, 4, 4, 3])
 }
 
 /// ArrivalCurvePrefix description recorded (by the harness) from a jittered sporadic process.
@@ -142,7 +151,7 @@ pub fn random_arrival(rng: &mut Rng, period: u64, sw: &ArrSwarm) -> ArrDesc {
             prefix_from_sporadic(period, jitter, horizon.max(1))
         }
         5 => {
-            let kk = rng.index(4);
+            let kk = any_leaf(rng);
             let inner = leaf_arrival(rng, period, kk);
             let j = rng.range(0, period);
             let once = ArrDesc::Jittered(Box::new(inner), j);
@@ -153,25 +162,25 @@ pub fn random_arrival(rng: &mut Rng, period: u64, sw: &ArrSwarm) -> ArrDesc {
             }
         }
         6 => {
-            let kk = 2 + rng.index(2);
+            let kk = 2 + rng.index(3);
             let inner = leaf_arrival(rng, period, kk);
             ArrDesc::Propagated(Box::new(inner), rng.range(0, period))
         }
         7 => {
             // two sources of roughly half the rate each
-            let ka = rng.index(4);
+            let ka = any_leaf(rng);
             let a = leaf_arrival(rng, period * 2, ka);
             let pb = period * 2 + rng.below(period + 1);
-            let kb = rng.index(4);
+            let kb = any_leaf(rng);
             let b = leaf_arrival(rng, pb, kb);
-            if rng.chance(1, 2) {
-                ArrDesc::Vec(vec![a, b])
-            } else {
-                ArrDesc::SumOf(Box::new(a), Box::new(b))
+            match rng.below(3) {
+                0 => ArrDesc::Vec(vec![a, b]),
+                1 => ArrDesc::Slice(vec![a, b]),
+                _ => ArrDesc::SumOf(Box::new(a), Box::new(b)),
             }
         }
         _ => {
-            let kk = rng.index(4);
+            let kk = any_leaf(rng);
             ArrDesc::Rc(Box::new(leaf_arrival(rng, period, kk)))
         }
     }
